@@ -285,6 +285,10 @@ class Verdict:
 def discharge_one(o, tier="quick"):
     v = Verdict(o)
     t1, t2 = (20, 20) if tier == "quick" else (60, 60)
+    if o.expect == "specerror":
+        v.status = "undecided"
+        v.detail["spec-error"] = "the contract expression no longer matches the shape of the code (see abstractions/spec-error notes)"
+        return v
     if o.expect == "site":
         v.status = "refuted"
         v.detail["site"] = "call site named in the contract no longer exists in the function"
@@ -355,7 +359,7 @@ def discharge_all(obls, tier="quick", workers=None):
     with ThreadPoolExecutor(max_workers=workers) as ex:
         vs = list(ex.map(lambda o: discharge_one(o, tier), obls))
     # verdicts must not flip under load: anything left undecided is retried with a much larger budget and little parallelism
-    retry = [i for i, v in enumerate(vs) if v.status == "undecided" and v.o.expect != "site"]
+    retry = [i for i, v in enumerate(vs) if v.status == "undecided" and v.o.expect not in ("site", "specerror")]
     if retry:
         with ThreadPoolExecutor(max_workers=4) as ex:
             again = list(ex.map(lambda i: discharge_one(vs[i].o, "thorough"), retry))
